@@ -30,6 +30,16 @@ def toy_model(theta, N, seed):  # noqa: N803
     return x + th.mean()
 
 
+def toy_model_mut(theta, N, seed):  # noqa: N803
+    """the same model, but one that uses its argument as scratch space (legal: the calibrator hands every call its own copy of the row)"""
+    out = toy_model(theta, N, seed)
+    try:
+        theta[...] = np.floor(theta) - 1.0
+    except (ValueError, TypeError):
+        pass
+    return out
+
+
 class InfMixLoss:
     """a loss that is +inf / -inf on part of the parameter space (a diverging simulation, an undefined likelihood) and finite elsewhere;
     a deterministic function of the simulated data, module-level so that it pickles"""
@@ -103,7 +113,7 @@ def build(cfg, folder=None, model=None):
                                       MABCalibrationEnv(len(samplers)))
     else:
         kw["samplers"] = samplers
-    return Calibrator(loss_function=make_loss(cfg["loss"]), real_data=real_data(cfg.get("N", 24)), model=model or toy_model,
+    return Calibrator(loss_function=make_loss(cfg["loss"]), real_data=real_data(cfg.get("N", 24)), model=model or (toy_model_mut if cfg.get("model") == "mutating" else toy_model),
                       parameters_bounds=[[0.0] * d, [1.0] * d], parameters_precision=[cfg.get("prec", 0.01)] * d,
                       ensemble_size=cfg["ensemble"], verbose=cfg.get("verbose", False), saving_folder=folder,
                       random_state=cfg["seed"], n_jobs=cfg.get("n_jobs", 1), **kw)
